@@ -42,6 +42,29 @@ A_COMMON = [
     "references are drawn from {each existing id, one unknown id, blank tag, missing tag}",
 ]
 
+def life_plans(tier):
+    if tier == "quick":
+        return [dict(name="alpha", mode="alphabet", objs=[1], depth=3),
+                dict(name="random", mode="random", objs=[1, 2], depth=8, num=40, cap=400)]
+    return [dict(name="alpha", mode="alphabet", objs=[1], depth=4),
+            dict(name="random", mode="random", objs=[1, 2], depth=12, num=400, cap=5000)]
+
+
+def life_property(assumptions):
+    def run(report, tier, seed):
+        cov = pipeline.run_life_check(report, life_plans(tier), seed, tier)
+        cov["trusted_base"] = TRUSTED
+        cov["checker_cmd"] = "tlc MosLife.tla (exhaustive alphabet histories + -simulate) ; replay on live objects ; tlc Trace_Merge.tla"
+        return report.finish(cov, assumptions)
+    return run
+
+
+A_LIFE = [
+    "histories: every sequence up to the stated depth over a 14-message state-dependent alphabet (exhaustive), plus "
+    "tlc -simulate behaviours drawing any message of any class, with reload / re-merge steps, on two live objects",
+    "judged step by step by TLC with resynchronisation on the implementation's post-state",
+]
+
 REGISTRY = {
     "C01": merge_property(lambda t: fam(t, story=STORY), A_COMMON + [
         "compared through the story-ID sequence only (C01's lens); judged when all references resolve, "
@@ -59,6 +82,9 @@ REGISTRY = {
         "a step whose status is not ok must leave the abstract state AND str(ro) unchanged"]),
     "C06": merge_property(lambda t: fam(t, story=STORY, item=ITEM), A_COMMON + [
         "warnings = MosRoMgrWarning subclasses recorded with simplefilter('always')"]),
+    "C07": life_property(A_LIFE),
+    "C13": life_property(A_LIFE),
+    "C14": life_property(A_LIFE),
     "C12": merge_property(lambda t: fam(t, story=STORY, item=ITEM, other=OTHER), A_COMMON + [
         "only schema-shaped messages are judged (required tags present)"]),
 }
